@@ -104,7 +104,9 @@ def _check_region(kind, text):
     elif kind == "attr":
         ok = first == "#"
     else:
-        ok = _stmt_region_ok(text)
+        # a statement region may also consist of `#[verifier::…]` attributes only (they attach to the statement that follows)
+        attrs_only = re.fullmatch(r"(\s*#\[verifier::[A-Za-z_]+(\([A-Za-z_, ]*\))?\]\s*)+", text) is not None
+        ok = attrs_only or _stmt_region_ok(text)
     if not ok:
         raise UnitError(f"ghost region of kind {kind} has a non-ghost form: {text[:60]!r}")
 
